@@ -156,6 +156,22 @@ pub fn run(out: &mut Out, tier: &str, seed: u64) {
         };
         out.case("expect", &["every safe entry point returns and releases what it allocated", &hex(&input)], &verdict, input.len() > 2);
     }
+    // very long number literals (beyond every digit buffer of the slow paths), near midpoints of
+    // adjacent doubles so that the decimal fallback is taken, in every position of a document
+    for digits in [700usize, 766, 767, 768, 769, 770, 800, 1100, 5000] {
+        for head in ["9007199254740993", "1", "179769313486231580793728971405303415079934132710037826936173778980444968292764750946649017977587207096330286416692887910946555547851940402630657488671505820681908902000708383676273854845817711531764475730270069855571366959622842914819860834936475292719074168444365510704342711559699508093042880177904174497791", "4.9406564584124654417656879286822137236505980261432476442558568250067550727020875186529983636163599237979656469544571773092665671035593979639877479601078187812630071319031140452784581716784898210368871863605699873072305000638740915356498438731247339727316961514003171538539807412623856559117102665855668676818703956031062493194527159149245532930545654440112748012970999954193198940908041656332452475714786901472678015935523861155013480352649347201937902681071074917033322268447533357208324319360923828934583680601060115061698097530783422773183292479049825247307763759272478746560847782037344696995336470179726777175851256605511991315048911014510378627381672509558373897335989936648099411642057026370902792427675445652290875386825064197182655334472656250"] {
+                let k = digits.saturating_sub(head.len());
+                let tail: String = (0..k).map(|j| (b'0' + ((j * 7 + digits) % 10) as u8) as char).collect();
+                let dot = if head.contains('.') { "" } else { "." };
+                for lit in [format!("{head}{dot}{tail}"), format!("-{head}{dot}{}", "0".repeat(k)), format!("{head}{tail}e-{}", digits), format!("0.{}{head}{tail}", "0".repeat(20)).replace("4.94", "494")] {
+                    for doc in [lit.clone(), format!("[{lit}]"), format!("{{\"a\":{lit},\"b\":[{lit}]}}")] {
+                        let r = all_entries(doc.as_bytes(), &[PathElem::Key("a".into())]);
+                        out.count("long-number docs");
+                        out.case("expect", &["very long number literal", &format!("{digits} digits, head {}", &head[..head.len().min(12)])], &r.map(|p| format!("panic: {p}")).unwrap_or("true".into()), true);
+                    }
+                }
+        }
+    }
     // SIMD-block-aligned and boundary sizes
     for len in [0usize, 1, 31, 32, 33, 63, 64, 65, 127, 128, 129, 4095, 4096, 4097] {
         for fill in [b' ', b'"', b'\\', b'[', b'1', 0xffu8, b'{'] {
